@@ -1,3 +1,12 @@
 import LhasaV.Props.C01
 open LhasaV.Props.C01
+#print axioms fmt_matches_source
+#print axioms params_ok
 #print axioms bit_reader_refines
+#print axioms tree_decodes_canonical_code
+#print axioms tree_build_in_bounds
+#print axioms tree_single
+#print axioms ring_copy_is_window_copy
+#print axioms ring_literal
+#print axioms lhark_length_code_roundtrip
+#print axioms distance_code_roundtrip
